@@ -152,7 +152,7 @@ theorem deleteA_removed (σ : Schema) : ∀ (n : Nat) (prog : List Bytes) (s : S
   | zero => intro prog s id s' h; simp [deleteA] at h
   | succ n ih =>
     intro prog s id s' h
-    obtain ⟨_, s3, hF, _, rfl⟩ := deleteA_succ_ok h
+    obtain ⟨_, s3, hF, _, rfl, _⟩ := deleteA_succ_ok h
     have hdel := fun st x st' hd => ih (mark prog id) st x st' hd
     obtain ⟨hsub3, hrem3⟩ := rounds_removed hdel _ s s3 hF
     constructor
@@ -320,7 +320,9 @@ theorem deleteA_diverge_inv {σ : Schema} {m : Nat} {prog : List Bytes} {s : St}
     refine ⟨hc, ?_⟩
     split at h
     · split at h
-      · cases h
+      · split at h
+        · cases h
+        · cases h
       · cases h
     · next e hF => cases h; exact rounds_diverge _ s hF
   · cases h
@@ -501,7 +503,7 @@ theorem rounds_progress {σ : Schema} {n : Nat} {prog : List Bytes} {id : Bytes}
     number of rounds (one per child store holding data for the entity, then A's own; a later round may find
     the boss already deleted by an earlier round's cascade — a reference cycle through the entity; since
     001d2d2 that is skipped, before it was a not-found failure). -/
-theorem deleteA_progress (σ : Schema) : ∀ (n : Nat) (prog : List Bytes) (s : St) (id : Bytes),
+theorem deleteA_progress (σ : Schema) (hp : σ.protect = none) : ∀ (n : Nat) (prog : List Bytes) (s : St) (id : Bytes),
     GInv σ (· ∈ prog) s → id ∉ prog → s.as.contains id = true →
     OkOrDiverge (deleteA σ n prog s id) := by
   intro n
@@ -520,7 +522,7 @@ theorem deleteA_progress (σ : Schema) : ∀ (n : Nat) (prog : List Bytes) (s : 
     rcases rounds_progress hid ihn (roundsOf σ s id) s (Or.inl hI) he with ⟨s3, h3, he3⟩ | h3
     · rw [h3]
       have : s3.as.contains id = true := (Map.contains_iff _ _).2 ⟨e, he3⟩
-      simp only [this, if_true]; exact Or.inl ⟨_, rfl⟩
+      simp only [this, if_true, hp]; exact Or.inl ⟨_, rfl⟩
     · rw [h3]; exact Or.inr rfl
 
 theorem GInv.ofInv {σ : Schema} {s : St} (h : Inv σ s) : GInv σ (· ∈ ([] : List Bytes)) s :=
@@ -532,14 +534,15 @@ theorem GInv.toInv {σ : Schema} {s : St} (h : GInv σ (· ∈ ([] : List Bytes)
 /-- **`DeleteById` on an existing A entity always succeeds** in a state satisfying the invariant —
     cycles and self references included (progress + termination) -/
 theorem deleteA_succeeds {σ : Schema} {s0 st : St} {id : Bytes} (hI : Inv σ st) (hsub : Sub st s0)
-    (hc : st.as.contains id = true) : ∃ st', deleteA σ (fuelOf s0) [] st id = .ok st' := by
-  rcases deleteA_progress σ (fuelOf s0) [] st id (GInv.ofInv hI) (by simp) hc with h | h
+    (hc : st.as.contains id = true) (hp : σ.protect = none) : ∃ st', deleteA σ (fuelOf s0) [] st id = .ok st' := by
+  rcases deleteA_progress σ hp (fuelOf s0) [] st id (GInv.ofInv hI) (by simp) hc with h | h
   · exact h
   · exact absurd h (deleteA_top_terminates σ s0 st id hsub)
 
 /-- **under the invariant, `DeleteById` on an existing B entity succeeds or is refused with the
     reference-exists error** — nothing else -/
-theorem deleteB_progress {σ : Schema} {s : St} {b : Bytes} (hI : Inv σ s) (hc : s.bs.contains b = true) :
+theorem deleteB_progress {σ : Schema} {s : St} {b : Bytes} (hI : Inv σ s) (hc : s.bs.contains b = true)
+    (hp : σ.protect = none) :
     (∃ s', deleteB σ s b = .ok s') ∨ deleteB σ s b = .error .refExists := by
   have hR : ∀ st, beforeDeleteB σ (deleteA σ (fuelOf s) []) b st .thingsRestrict = .ok st ∨
       beforeDeleteB σ (deleteA σ (fuelOf s) []) b st .thingsRestrict = .error .refExists := by
@@ -557,7 +560,7 @@ theorem deleteB_progress {σ : Schema} {s : St} {b : Bytes} (hI : Inv σ s) (hc 
       rcases cascade_progress (R := fun st => Sub st s) (f := (·.dep)) (id := b) (skip := []) (Q := none')
         (fun st x a hs _ c => by
           obtain ⟨ex, hex, _⟩ := (isReferrer_iff st _ b x).1 c
-          exact deleteA_progress σ (fuelOf s) [] st x (GInv.ofInv a) (by simp) ((Map.contains_iff _ _).2 ⟨ex, hex⟩))
+          exact deleteA_progress σ hp (fuelOf s) [] st x (GInv.ofInv a) (by simp) ((Map.contains_iff _ _).2 ⟨ex, hex⟩))
         (fun st x st' a hs c => by
           obtain ⟨i, sb, _, _⟩ := deleteA_inv σ (fuelOf s) none' [] st x st' a (fun _ h => by cases h) c
           exact ⟨i, sb.trans hs⟩)
